@@ -239,12 +239,25 @@ def build_pair(seed):
     return docs
 
 
+def strip_scene_element(doc):
+    """the same document as loaded from a file that has no <scene> element"""
+    import collada
+    import re
+    data = wbytes(doc)
+    data = re.sub(rb'<scene>.*?</scene>|<scene\s*/>', b'', data, flags=re.S)
+    return collada.Collada(io.BytesIO(data))
+
+
 def check_failure(seed, mode, dest):
-    """(C)/(D): returns None or (sig, what). mode in scene|camera|sink"""
+    """(C)/(D): returns None or (sig, what). mode in scene|scene-noelem|camera|sink"""
     import collada
     from collada import scene
     r = random.Random('c03f/%s' % seed)
     doc, twin = build_pair(seed)
+    noelem = mode == 'scene-noelem'
+    if noelem:
+        mode = 'scene'
+        doc, twin = strip_scene_element(doc), strip_scene_element(twin)
     tmp = tempfile.mkdtemp(prefix='c03_')
     try:
         path = os.path.join(tmp, 'out.dae')
@@ -285,6 +298,9 @@ def check_failure(seed, mode, dest):
                 return ('model-changed-on-failure:' + mode, 'failed save changed the model: %s' % '; '.join(df[:3]))
             # repair
             if mode == 'scene':
+                if noelem or r.random() < 0.3:
+                    good = None if r.random() < 0.6 else good      # the repair may also be "no default scene"
+                    twin.scene = None if good is None else twin.scene
                 doc.scene = good
             else:
                 setattr(cam, a, saved[0]); setattr(cam, b, saved[1]); cam.aspect_ratio = saved[2]
@@ -396,7 +412,7 @@ def run(ctx):
         report('B', check_unmodelled(random.Random(s), kind), dict(kind='unmodelled', base=kind, seed=s))
     for i in range(ctx.n(45, 2500)):
         seed = ctx.rng.randrange(10 ** 9)
-        mode = ['scene', 'camera', 'sink'][i % 3]
+        mode = ['scene', 'camera', 'sink', 'scene-noelem'][i % 4]
         dest = 'path' if i % 2 else 'file'
         ctx.case(dict(check='failure', seed=seed, mode=mode, dest=dest))
         ctx.count('CD:' + mode + ':' + dest)
